@@ -118,6 +118,14 @@ func (t *tr) hashes(i int, rnd *choice.Src) {
 			data := rnd.Bytes(sz)
 			h := mk()
 			t.add(fmt.Sprintf("h%d.compute.%d", hi, sz), h.ComputeHash(data))
+			// the same bytes at an address that is not 8-byte aligned, one-shot and as a first
+			// Write with nothing buffered (the full-block fast path on a misaligned pointer)
+			shift := 1 + rnd.Intn(7)
+			mis := append(make([]byte, shift), data...)[shift:]
+			t.add(fmt.Sprintf("h%d.compute.misaligned.%d", hi, sz), mk().ComputeHash(mis))
+			hm := mk()
+			_, _ = hm.Write(mis)
+			t.add(fmt.Sprintf("h%d.sum.misaligned.%d", hi, sz), hm.SumHash())
 			// incremental writes with seeded chunking, unaligned offsets
 			h.Reset()
 			for off := 0; off < len(data); {
@@ -451,6 +459,43 @@ func (t *tr) bls(i int, rnd *choice.Src) {
 		bad[1+rnd.Intn(3)] = many[0]
 		res, err := crypto.BatchVerifyBLSSignaturesOneMessage(pks, bad, msg, h)
 		t.addf("verify.batch", "%v %v", res, err)
+		// every pattern of valid / invalid positions for 4 signatures, seeded patterns for 5..9
+		// (all shapes of the aggregation tree, pruning decisions included)
+		wrong, _ := sks[0].Sign(append([]byte("other"), msg...), h)
+		for pat := 0; pat < 16; pat++ {
+			l := append([]crypto.Signature(nil), sigs...)
+			for k := 0; k < 4; k++ {
+				if pat&(1<<k) != 0 {
+					l[k] = wrong
+				}
+			}
+			res, err := crypto.BatchVerifyBLSSignaturesOneMessage(pks, l, msg, h)
+			t.addf(fmt.Sprintf("verify.batch.pattern.%d", pat), "%v %v", res, err)
+		}
+		for rep := 0; rep < 6; rep++ {
+			cnt := 5 + rnd.Intn(5)
+			var ks []crypto.PublicKey
+			var l []crypto.Signature
+			for k := 0; k < cnt; k++ {
+				ks = append(ks, pks[k%4])
+				if rnd.Intn(3) == 0 {
+					l = append(l, wrong)
+				} else {
+					l = append(l, sigs[k%4])
+				}
+			}
+			res, err := crypto.BatchVerifyBLSSignaturesOneMessage(ks, l, msg, h)
+			t.addf(fmt.Sprintf("verify.batch.seeded.%d", cnt), "%v %v", res, err)
+		}
+		// many key generations: every derived scalar is canonical (< r) in every build
+		for k := 0; k < 40; k++ {
+			sk, err := crypto.GeneratePrivateKey(crypto.BLSBLS12381, rnd.Bytes(32))
+			if err == nil {
+				t.add("keygen.sk", sk.Encode())
+				_, derr := crypto.DecodePrivateKey(crypto.BLSBLS12381, sk.Encode())
+				t.addf("keygen.roundtrip", "%v", derr == nil)
+			}
+		}
 		ok, err = crypto.SPOCKVerify(pks[0], mustSpock(sks[0], msg, h), pks[1], mustSpock(sks[1], msg, h))
 		t.addf("spock.verify2", "%v %v", ok, err)
 	}
